@@ -23,8 +23,8 @@ import (
 func init() {
 	Register(&Prop{
 		ID:   "C18",
-		Expl: "Decides the mutex part of deadlock freedom by a lock-order analysis of the whole production call graph. Every sync.Mutex/RWMutex acquisition is abstracted to a lock class (named type + field, or package-level variable); a flow-sensitive pass over each function's SSA CFG (Lock/Unlock/RLock/RUnlock, deferred unlocks, early unlock/relock as in SendEvent; lock/unlock wrappers, release helpers and deferred closures are summarised by their fixed net effect +class/-class and applied at the call or at function exit; mutex aliases, captured aliases and mutex parameters are resolved to the class they denote) gives the locks held at every call and acquisition; summaries over the synchronous VTA call edges (go statements cut, interface and func-valued-field callees resolved) give the locks a call may acquire. (R1) the resulting lock-order graph has no cycle and no self-loop — each edge instance that lies on a cycle is reported with the call path that takes the inner lock and the call paths that close the cycle; (R2) no component lock is held across a dynamic call (callback field, observer interface) that can reach the acquisition of the per-swap event mutex while that component lock is itself taken under the event mutex; (R3) no synchronous call path leads from an Action.Execute (which runs under the per-swap mutex) back into SendEvent/Recover. The quantifier is over all functions, call sites and acquisition sites of the production packages, i.e. over all interleavings that the lock order admits.",
-		NotD: "Channel-based blocking (unbuffered sends in the RPC watcher), blocking RPCs, sync.Cond/WaitGroup waits, goroutine leaks. Lock classes merge all instances of a type (a cycle between two different objects of one class is reported like one on a single object); feasibility of a path with respect to the FSM tables or swap ids is not examined.",
+		Expl: "Decides the mutex part of deadlock freedom by a lock-order analysis of the whole production call graph. Every sync.Mutex/RWMutex acquisition is abstracted to a lock class (named type + field, or package-level variable); a flow-sensitive pass over each function's SSA CFG (Lock/Unlock/RLock/RUnlock, deferred unlocks, early unlock/relock as in SendEvent; lock/unlock wrappers, release helpers and deferred closures are summarised by their fixed net effect +class/-class and applied at the call or at function exit; mutex aliases, captured aliases and mutex parameters are resolved to the class they denote) gives the locks held at every call and acquisition; summaries over the synchronous VTA call edges (go statements cut, interface and func-valued-field callees resolved) give the locks a call may acquire. (R1) the resulting lock-order graph has no cycle and no self-loop — each edge instance that lies on a cycle is reported with the call path that takes the inner lock and the call paths that close the cycle; (R2) no component lock is held across a dynamic call (callback field, observer interface) that can reach the acquisition of the per-swap event mutex while that component lock is itself taken under the event mutex; (R3) no synchronous call path leads from an Action.Execute (which runs under the per-swap mutex) back into SendEvent/Recover; (R4) no blocking channel operation (send, receive, select without default; a ctx.Done arm does not count as an exit, a timer arm does) is executed while a lock is held - locally or by every caller - that the code performing the counterpart operation on the same channel can need before it gets back to the channel or on its exit path (it acquires that class itself, in a deferred function or a callee, or a class from which the held one is reachable in the lock order); channels are identified by the make, struct field, variable, parameter and captured variable they flow through; a single hand-over send to a goroutine started in the same function on a channel made there is only checked against the goroutine's path to its first receive. The quantifier is over all functions, call sites and acquisition sites of the production packages, i.e. over all interleavings that the lock order admits.",
+		NotD: "Channel waits that involve no lock (two goroutines waiting for each other on channels only), waits on library channels, channels that cannot be identified (reported as undecided), blocking RPCs, sync.Cond/WaitGroup waits, goroutine leaks. Lock classes merge all instances of a type (a cycle between two different objects of one class is reported like one on a single object); feasibility of a path with respect to the FSM tables or swap ids is not examined.",
 		Run:  runC18,
 	})
 }
@@ -201,6 +201,7 @@ type c18Func struct {
 	acquired       c18Set            // every key this function locks directly
 	viaWrapper     c18Set            // keys it comes to hold through a lock wrapper
 	netBad         bool              // the return paths have no fixed net lock effect
+	chanOps        []*c18ChanOp      // channel operations with the locks held around them
 	opaqueDefer    bool              // calls/defers a function value with no analysable callee, or hands a lock to a goroutine
 	rets           []*c18Net         // lock effect at each return
 	retPos         []token.Pos
@@ -228,6 +229,9 @@ type c18Engine struct {
 	nDynUnresolved int
 	net            map[*ssa.Function]*c18Net
 	netBad         map[*ssa.Function]bool
+	entryMust      map[*ssa.Function]c18Set
+	fullAcq        map[*ssa.Function]c18Set
+	chanUF         map[string]string
 }
 
 var (
@@ -865,6 +869,10 @@ func (e *c18Engine) step(fi *c18Func, st *c18State, in ssa.Instruction, record b
 		if op == nil {
 			if record {
 				e.recordSite(fi, st, x)
+				if b, ok := x.Call.Value.(*ssa.Builtin); ok && b.Name() == "close" && len(x.Call.Args) == 1 {
+					// closing a channel wakes its receivers: a counterpart of receive operations
+					fi.chanOps = append(fi.chanOps, &c18ChanOp{fn: fi.fn, instr: x, pos: x.Pos(), arms: []c18Arm{{ch: x.Call.Args[0], send: true}}, may: st.may.clone(), relMay: st.relMay.clone()})
+				}
 			}
 			if cc := x.Common(); cc.StaticCallee() == nil && !cc.IsInvoke() && len(e.callees[x]) == 0 {
 				if _, isBuiltin := cc.Value.(*ssa.Builtin); !isBuiltin {
@@ -964,6 +972,25 @@ func (e *c18Engine) step(fi *c18Func, st *c18State, in ssa.Instruction, record b
 				}
 				e.recordSite(fi, ds, d)
 			}
+		}
+	case *ssa.Send:
+		if record {
+			fi.chanOps = append(fi.chanOps, &c18ChanOp{fn: fi.fn, instr: x, pos: x.Pos(), arms: []c18Arm{{ch: x.Chan, send: true}}, blocking: true, may: st.may.clone(), relMay: st.relMay.clone()})
+		}
+	case *ssa.UnOp:
+		if record && x.Op == token.ARROW {
+			fi.chanOps = append(fi.chanOps, &c18ChanOp{fn: fi.fn, instr: x, pos: x.Pos(), arms: []c18Arm{{ch: x.X, send: false}}, blocking: true, may: st.may.clone(), relMay: st.relMay.clone()})
+		}
+	case *ssa.Select:
+		if record {
+			op := &c18ChanOp{fn: fi.fn, instr: x, pos: x.Pos(), blocking: x.Blocking, isSelect: true, may: st.may.clone(), relMay: st.relMay.clone()}
+			for _, sst := range x.States {
+				op.arms = append(op.arms, c18Arm{ch: sst.Chan, send: sst.Dir == types.SendOnly})
+				if !op.pos.IsValid() {
+					op.pos = sst.Pos
+				}
+			}
+			fi.chanOps = append(fi.chanOps, op)
 		}
 	case *ssa.Return:
 		if !record {
@@ -1754,6 +1781,9 @@ func runC18(c *an.Check) {
 	if !disp {
 		c.Note("C18.R3", "dispatcher", w.Pos(sendEvent.Pos()), "SendEvent no longer calls Action.Execute with the event mutex held; R3 is stricter than needed")
 	}
+
+	// ---- R4 ----------------------------------------------------------------------
+	e.ruleR4(c, succ)
 }
 
 func sortedFuncs(m map[*ssa.Function][]c18Hop) []*ssa.Function {
@@ -1864,4 +1894,644 @@ func (e *c18Engine) syncPath(start *ssa.Function, targets, stop map[*ssa.Functio
 		}
 	}
 	return nil
+}
+
+// ---------------------------------------------------------------------------
+// "caller holds" sets (shared with C19)
+// ---------------------------------------------------------------------------
+
+// EntryMust returns, per function, the locks held by every synchronous caller
+// at every call (go statements and library call-backs contribute the empty set).
+func (e *c18Engine) EntryMust() map[*ssa.Function]c18Set {
+	if e.entryMust != nil {
+		return e.entryMust
+	}
+	em := map[*ssa.Function]c18Set{}
+	top := map[*ssa.Function]bool{}
+	for _, fn := range e.funcs {
+		if len(e.callers[fn]) > 0 {
+			top[fn] = true
+		} else {
+			em[fn] = c18Set{}
+		}
+	}
+	for changed := true; changed; {
+		changed = false
+		for _, fn := range e.funcs {
+			if len(e.callers[fn]) == 0 {
+				continue
+			}
+			var acc c18Set
+			accTop := true
+			for _, s := range e.callers[fn] {
+				var contrib c18Set
+				if s.isGo || s.pseudo {
+					contrib = c18Set{}
+				} else {
+					if top[s.fn] {
+						continue // TOP: neutral for the intersection
+					}
+					contrib = s.must.clone()
+					for k := range em[s.fn] {
+						if !s.relMay[k] { // not released again by the caller before the call
+							contrib[k] = true
+						}
+					}
+				}
+				if accTop {
+					acc, accTop = contrib, false
+				} else {
+					for k := range acc {
+						if !contrib[k] {
+							delete(acc, k)
+						}
+					}
+				}
+			}
+			if accTop {
+				continue
+			}
+			if top[fn] || !acc.equal(em[fn]) {
+				top[fn] = false
+				em[fn] = acc
+				changed = true
+			}
+		}
+	}
+	for _, fn := range e.funcs {
+		if top[fn] { // only reachable through call cycles without a root: dead code
+			em[fn] = c18Set{}
+		}
+	}
+	e.entryMust = em
+	return em
+}
+
+// FullAcquire: every lock class a function may acquire, itself or through
+// synchronous callees (deferred calls and resolved callbacks included),
+// whatever it holds at that moment.
+func (e *c18Engine) FullAcquire() map[*ssa.Function]c18Set {
+	if e.fullAcq != nil {
+		return e.fullAcq
+	}
+	fa := map[*ssa.Function]c18Set{}
+	for _, fn := range e.funcs {
+		fa[fn] = c18Set{}
+		for _, a := range e.fi[fn].acqs {
+			fa[fn][a.class] = true
+		}
+	}
+	for changed := true; changed; {
+		changed = false
+		for _, fn := range e.funcs {
+			for _, s := range e.fi[fn].sites {
+				if s.isGo {
+					continue
+				}
+				for _, g := range s.callees {
+					for c := range fa[g] {
+						if !fa[fn][c] {
+							fa[fn][c] = true
+							changed = true
+						}
+					}
+				}
+			}
+		}
+	}
+	e.fullAcq = fa
+	return fa
+}
+
+// ---------------------------------------------------------------------------
+// C18.R4: blocking channel operation under a lock
+// ---------------------------------------------------------------------------
+
+type c18Arm struct {
+	ch   ssa.Value
+	send bool
+}
+
+type c18ChanOp struct {
+	fn          *ssa.Function
+	instr       ssa.Instruction
+	pos         token.Pos
+	arms        []c18Arm
+	blocking    bool
+	isSelect    bool
+	may, relMay c18Set
+}
+
+// chanKey names the place a channel value lives in ("" = not identifiable).
+func (e *c18Engine) chanKey(fn *ssa.Function, v ssa.Value) string {
+	switch x := v.(type) {
+	case *ssa.MakeChan:
+		n := 0
+		for _, b := range fn.Blocks {
+			for _, in := range b.Instrs {
+				if mc, ok := in.(*ssa.MakeChan); ok {
+					if mc == x {
+						return fmt.Sprintf("make:%s#%d", e.w.FuncName(fn), n)
+					}
+					n++
+				}
+			}
+		}
+	case *ssa.Parameter:
+		for i, p := range fn.Params {
+			if p == x {
+				return fmt.Sprintf("param:%s#%d", e.w.FuncName(fn), i)
+			}
+		}
+	case *ssa.FreeVar:
+		for i, p := range fn.FreeVars {
+			if p == x {
+				return fmt.Sprintf("freevar:%s#%d", e.w.FuncName(fn), i)
+			}
+		}
+	case *ssa.Alloc:
+		return fmt.Sprintf("cell:%s:%s@%d", e.w.FuncName(fn), x.Comment, x.Pos())
+	case *ssa.Global:
+		return "global:" + x.String()
+	case *ssa.Field:
+		return "field:" + an.FieldName(x.X.Type(), x.Field)
+	case *ssa.FieldAddr:
+		return "field:" + an.FieldName(x.X.Type(), x.Field)
+	case *ssa.UnOp:
+		if x.Op == token.MUL {
+			return e.chanKey(fn, x.X)
+		}
+	case *ssa.Phi:
+		return fmt.Sprintf("phi:%s:%s", e.w.FuncName(fn), x.Name())
+	case *ssa.ChangeType:
+		return e.chanKey(fn, x.X)
+	case *ssa.Convert:
+		return e.chanKey(fn, x.X)
+	case *ssa.Call:
+		return "call:" + e.w.Info(x).Name
+	case *ssa.Extract:
+		if call, ok := x.Tuple.(*ssa.Call); ok {
+			return fmt.Sprintf("call:%s#%d", e.w.Info(call).Name, x.Index)
+		}
+	}
+	return ""
+}
+
+func c18IsChan(t types.Type) bool {
+	_, ok := t.Underlying().(*types.Chan)
+	return ok
+}
+
+func (e *c18Engine) ufFind(k string) string {
+	for {
+		p, ok := e.chanUF[k]
+		if !ok || p == k {
+			return k
+		}
+		k = p
+	}
+}
+
+func (e *c18Engine) ufUnion(a, b string) {
+	if a == "" || b == "" {
+		return
+	}
+	ra, rb := e.ufFind(a), e.ufFind(b)
+	if ra == rb {
+		return
+	}
+	if ra < rb {
+		ra, rb = rb, ra
+	}
+	e.chanUF[ra] = rb
+}
+
+// chanClasses merges the places one channel flows through: a make, the struct
+// fields and variables it is stored in, the parameters and captured variables
+// it is passed as.
+func (e *c18Engine) chanClasses() {
+	if e.chanUF != nil {
+		return
+	}
+	e.chanUF = map[string]string{}
+	for _, fn := range e.funcs {
+		for _, b := range fn.Blocks {
+			for _, in := range b.Instrs {
+				switch x := in.(type) {
+				case *ssa.Store:
+					if c18IsChan(x.Val.Type()) {
+						e.ufUnion(e.chanKey(fn, x.Addr), e.chanKey(fn, x.Val))
+					}
+				case *ssa.Phi:
+					if c18IsChan(x.Type()) {
+						for _, ed := range x.Edges {
+							e.ufUnion(e.chanKey(fn, x), e.chanKey(fn, ed))
+						}
+					}
+				case *ssa.MakeClosure:
+					f, _ := x.Fn.(*ssa.Function)
+					if f == nil {
+						continue
+					}
+					for i, bv := range x.Bindings {
+						if i < len(f.FreeVars) && (c18IsChan(bv.Type()) || c18IsChan(c18Deref(bv.Type()))) {
+							e.ufUnion(e.chanKey(fn, bv), e.chanKey(f, f.FreeVars[i]))
+						}
+					}
+				case ssa.CallInstruction:
+					cc := x.Common()
+					var callees []*ssa.Function
+					callees = append(callees, e.callees[x]...)
+					if f := cc.StaticCallee(); f != nil && e.in[f] {
+						callees = append(callees, f)
+					}
+					for _, g := range callees {
+						for i, p := range g.Params {
+							if !c18IsChan(p.Type()) {
+								continue
+							}
+							var av ssa.Value
+							switch {
+							case cc.IsInvoke() && i >= 1 && i-1 < len(cc.Args):
+								av = cc.Args[i-1]
+							case !cc.IsInvoke() && len(cc.Args) == len(g.Params):
+								av = cc.Args[i]
+							}
+							if av != nil {
+								e.ufUnion(e.chanKey(fn, av), e.chanKey(g, p))
+							}
+						}
+					}
+				}
+			}
+		}
+	}
+}
+
+// chanClass returns the class of a channel value and a readable name for it.
+func (e *c18Engine) chanClass(fn *ssa.Function, v ssa.Value) string {
+	e.chanClasses()
+	k := e.chanKey(fn, v)
+	if k == "" {
+		return ""
+	}
+	return e.ufFind(k)
+}
+
+// className prefers a struct field of the class as its name.
+func (e *c18Engine) chanClassName(class string) string {
+	best := ""
+	consider := func(k string) {
+		if e.ufFind(k) != class {
+			return
+		}
+		if strings.HasPrefix(k, "field:") && (best == "" || !strings.HasPrefix(best, "field:") || k < best) {
+			best = k
+		} else if best == "" || (!strings.HasPrefix(best, "field:") && k < best) {
+			best = k
+		}
+	}
+	consider(class)
+	keys := make([]string, 0, len(e.chanUF))
+	for k := range e.chanUF {
+		keys = append(keys, k)
+	}
+	sort.Strings(keys)
+	for _, k := range keys {
+		consider(k)
+	}
+	return strings.TrimPrefix(best, "field:")
+}
+
+// c18LibraryChan: channels made by the standard library; timeout says the
+// channel is guaranteed to become ready (a bounded wait).
+func c18LibraryChan(class string) (lib, timeout bool) {
+	switch {
+	case strings.HasPrefix(class, "call:func:time.After"), class == "field:Timer.C", class == "field:Ticker.C":
+		return true, true
+	case strings.HasPrefix(class, "call:"):
+		return true, false // e.g. ctx.Done(): does not make the wait non-blocking
+	}
+	return false, false
+}
+
+// beforeFirst lists the instructions of fn that can execute before target is
+// reached for the first time.
+func c18BeforeFirst(fn *ssa.Function, target ssa.Instruction) map[ssa.Instruction]bool {
+	out := map[ssa.Instruction]bool{}
+	if len(fn.Blocks) == 0 {
+		return out
+	}
+	seen := map[*ssa.BasicBlock]bool{}
+	work := []*ssa.BasicBlock{fn.Blocks[0]}
+	seen[fn.Blocks[0]] = true
+	for len(work) > 0 {
+		b := work[len(work)-1]
+		work = work[:len(work)-1]
+		stop := false
+		for _, in := range b.Instrs {
+			if in == target {
+				stop = true
+				break
+			}
+			out[in] = true
+		}
+		if stop {
+			continue
+		}
+		for _, s := range b.Succs {
+			if !seen[s] {
+				seen[s] = true
+				work = append(work, s)
+			}
+		}
+	}
+	return out
+}
+
+// needsLock: can function r (the goroutine code around a counterpart channel
+// operation) need lock h? only = restrict to these instructions (nil = all).
+// Returns the class it acquires and, when that is not h itself, the lock-order
+// path from it to h.
+func (e *c18Engine) needsLock(r *ssa.Function, h string, succ map[string]map[string]bool, only map[ssa.Instruction]bool) (string, []string) {
+	fa := e.FullAcquire()
+	cand := c18Set{}
+	fi := e.fi[r]
+	for _, a := range fi.acqs {
+		if only == nil || only[a.instr] {
+			cand[a.class] = true
+		}
+	}
+	for _, s := range fi.sites {
+		if s.isGo {
+			continue
+		}
+		if only != nil && !only[s.instr] && !s.isDefer {
+			continue
+		}
+		if only != nil && s.isDefer {
+			continue // deferred calls run at exit, after the first counterpart operation
+		}
+		for _, g := range s.callees {
+			for c := range fa[g] {
+				cand[c] = true
+			}
+		}
+	}
+	if cand[h] {
+		return h, nil
+	}
+	for _, x := range cand.sorted() {
+		if p := c18ClassPath(x, h, succ); p != nil {
+			return x, p
+		}
+	}
+	return "", nil
+}
+
+func (e *c18Engine) ruleR4(c *an.Check, succ map[string]map[string]bool) {
+	w := c.W
+	c.Rule("C18.R4", "no blocking channel operation (send, receive, select without default) is executed while a lock is held whose class the goroutine performing the counterpart operation on that channel can need (acquires it itself, in a deferred function or a callee, or acquires a lock from which it is reachable in the lock order) before it gets back to the counterpart operation or on its exit path")
+	e.chanClasses()
+	em := e.EntryMust()
+	unsure := map[*ssa.Function]bool{}
+	for _, u := range e.unknown {
+		if u.state {
+			unsure[u.fn] = true
+		}
+	}
+	// all channel operations by class and direction
+	type opArm struct {
+		op  *c18ChanOp
+		arm c18Arm
+	}
+	byClass := map[string][]opArm{}
+	nOps := 0
+	for _, fn := range e.funcs {
+		for _, op := range e.fi[fn].chanOps {
+			nOps++
+			for _, a := range op.arms {
+				if cl := e.chanClass(fn, a.ch); cl != "" {
+					byClass[cl] = append(byClass[cl], opArm{op, a})
+				}
+			}
+		}
+	}
+	c.Extra["channel_operations"] = nOps
+	examined := 0
+	for _, fn := range e.funcs {
+		for _, op := range e.fi[fn].chanOps {
+			if !op.blocking {
+				continue
+			}
+			held := c18Set{}
+			for _, h := range op.may.classes() {
+				held[h] = true
+			}
+			for k := range em[fn] {
+				if !op.relMay[k] {
+					held[c18Base(k)] = true
+				}
+			}
+			if len(held) == 0 {
+				continue
+			}
+			examined++
+			kind := "receives from"
+			if op.isSelect {
+				kind = "selects on"
+			} else if op.arms[0].send {
+				kind = "sends on"
+			}
+			// classify the arms
+			type armInfo struct {
+				arm   c18Arm
+				class string
+			}
+			var arms []armInfo
+			timeout, unknownArm := false, false
+			var names []string
+			for _, a := range op.arms {
+				cl := e.chanClass(fn, a.ch)
+				if cl == "" {
+					unknownArm = true
+					names = append(names, "?")
+					continue
+				}
+				lib, to := c18LibraryChan(cl)
+				if to {
+					timeout = true
+				}
+				if lib {
+					names = append(names, strings.TrimPrefix(strings.TrimPrefix(cl, "call:"), "field:"))
+					continue
+				}
+				arms = append(arms, armInfo{a, cl})
+				names = append(names, e.chanClassName(cl))
+			}
+			cons := fmt.Sprintf("%s %s %s holding %s", e.fnKey(fn), kind, strings.Join(names, ", "), strings.Join(held.sorted(), ", "))
+			pos := w.Pos(op.pos)
+			switch {
+			case timeout:
+				c.OK("C18.R4", cons, pos, "a timer arm bounds the wait")
+				continue
+			case unknownArm:
+				c.Unknown("C18.R4", cons, pos, "a channel of this operation cannot be identified (not a field, variable, parameter or make)")
+				continue
+			case len(arms) == 0:
+				c.Unknown("C18.R4", cons, pos, "waits only on library channels while holding a lock; whether their counterpart needs the lock is not decided")
+				continue
+			}
+			// every module-channel arm must be stuck for the wait to be a deadlock
+			allStuck := true
+			var detail []string
+			var path []string
+			undecided := ""
+			okWhy := ""
+			for _, ai := range arms {
+				stuck := false
+				var counterparts []opArm
+				for _, oa := range byClass[ai.class] {
+					if oa.arm.send != ai.arm.send && oa.op != op {
+						counterparts = append(counterparts, oa)
+					}
+				}
+				if len(counterparts) == 0 {
+					undecided = "no counterpart operation on " + e.chanClassName(ai.class) + " in the analysed code"
+					continue
+				}
+				// buffered hand-over: every make of the class has constant capacity >= 1 and this is its only send, outside a loop
+				if ai.arm.send && e.bufferedSingleSend(ai.class, op, byClass[ai.class] != nil, func() int {
+					n := 0
+					for _, oa := range byClass[ai.class] {
+						if oa.arm.send {
+							n++
+						}
+					}
+					return n
+				}()) {
+					okWhy = "the channel is buffered and this is its only send"
+					continue
+				}
+				handshake := ai.arm.send && e.isHandshake(fn, op, ai.arm.ch)
+				for _, cp := range counterparts {
+					r := cp.op.fn
+					var only map[ssa.Instruction]bool
+					if handshake {
+						only = c18BeforeFirst(r, cp.op.instr)
+					}
+					for _, h := range held.sorted() {
+						got, lp := e.needsLock(r, h, succ, only)
+						if got == "" {
+							continue
+						}
+						if unsure[r] {
+							undecided = "the lock state of " + e.fnKey(r) + " contains an unsupported shape"
+							continue
+						}
+						stuck = true
+						d := fmt.Sprintf("%s (counterpart at %s) can need %s", e.fnKey(r), w.Pos(cp.op.pos), got)
+						if lp != nil {
+							d += ", and " + strings.Join(lp, " -> ") + " in the lock order"
+						}
+						detail = append(detail, d)
+						path = append(path, fmt.Sprintf("%s [%s] %s %s holding %s", e.fnKey(fn), pos, kind, e.chanClassName(ai.class), h))
+						path = append(path, fmt.Sprintf("%s [%s] performs the counterpart operation and can block on %s (held by the waiting goroutine, directly or through the lock order)", e.fnKey(r), w.Pos(cp.op.pos), got))
+					}
+				}
+				if !stuck {
+					allStuck = false
+					if handshake && okWhy == "" {
+						okWhy = "hand-over to the goroutine started in this function on a channel made here: the goroutine reaches its first receive without needing the lock (assumes no other sender reaches the channel before this send)"
+					}
+				}
+			}
+			switch {
+			case unsure[fn]:
+				c.Unknown("C18.R4", cons, pos, "the lock state of this function contains an unsupported shape")
+			case allStuck && len(detail) > 0:
+				c.Bad("C18.R4", cons, pos, "blocking channel operation under a lock whose counterpart can need that lock: the waiting goroutine never releases it and the counterpart never gets back to the channel; "+strings.Join(c19LimitStr(detail, 4), "; "), path...)
+			case undecided != "" && len(detail) == 0 && okWhy == "":
+				c.Unknown("C18.R4", cons, pos, undecided)
+			default:
+				if okWhy == "" {
+					okWhy = "no goroutine performing the counterpart operation needs a held lock"
+				}
+				c.OK("C18.R4", cons, pos, okWhy)
+			}
+		}
+	}
+	c.Extra["channel_operations_under_lock"] = examined
+	c.AtLeast("C18.R4", "blocking channel operations under a lock examined", examined, 1)
+}
+
+func c19LimitStr(s []string, n int) []string {
+	if len(s) <= n {
+		return s
+	}
+	return append(append([]string{}, s[:n]...), fmt.Sprintf("... (%d more)", len(s)-n))
+}
+
+// isHandshake: the send is the single hand-over to a goroutine started in the
+// same function on a channel made in the same function (so it pairs with the
+// goroutine's first receive).
+func (e *c18Engine) isHandshake(fn *ssa.Function, op *c18ChanOp, ch ssa.Value) bool {
+	mk, ok := ch.(*ssa.MakeChan)
+	if !ok || mk.Parent() != fn {
+		return false
+	}
+	// not in a loop
+	if an.ReachBlocks(op.instr.Block().Succs, nil, nil)[op.instr.Block()] {
+		return false
+	}
+	// a go statement of this function receives the channel as argument
+	started := false
+	sends := 0
+	for _, b := range fn.Blocks {
+		for _, in := range b.Instrs {
+			switch x := in.(type) {
+			case *ssa.Go:
+				for _, a := range x.Call.Args {
+					if a == mk {
+						started = true
+					}
+				}
+			case *ssa.Send:
+				if x.Chan == mk {
+					sends++
+				}
+			case *ssa.Select:
+				for _, st := range x.States {
+					if st.Chan == mk && st.Dir == types.SendOnly {
+						sends++
+					}
+				}
+			}
+		}
+	}
+	return started && sends == 1
+}
+
+// bufferedSingleSend: the class has only makes with a constant capacity >= 1
+// and exactly one send site, which is outside any loop.
+func (e *c18Engine) bufferedSingleSend(class string, op *c18ChanOp, _ bool, nSends int) bool {
+	if nSends != 1 || an.ReachBlocks(op.instr.Block().Succs, nil, nil)[op.instr.Block()] {
+		return false
+	}
+	makes, ok := 0, true
+	for _, fn := range e.funcs {
+		for _, b := range fn.Blocks {
+			for _, in := range b.Instrs {
+				mc, isMk := in.(*ssa.MakeChan)
+				if !isMk || e.chanClass(fn, mc) != class {
+					continue
+				}
+				makes++
+				if n, isConst := an.ConstInt(mc.Size); !isConst || n < 1 {
+					ok = false
+				}
+			}
+		}
+	}
+	return ok && makes > 0
 }
